@@ -1333,11 +1333,13 @@ def check_C06(rep, prog, tier):
         _race_obligation(rep, prog, RC, bound, dl, delete_latest, empty)
     # the collector run with break_lock (gc --break-lock): it must still refuse or be refused while a backup is in progress
     _race_obligation(rep, prog, RC, bound, dl, False, False, break_lock=True)
+    # the existing version is b9999, so the backup writes the first five-digit band: "newest band" must not be decided by name order
+    _race_obligation(rep, prog, RC, bound, dl, False, False, base=9999)
 
 
-def _race_obligation(rep, prog, RC, bound, dl, delete_latest, empty=False, break_lock=False):
+def _race_obligation(rep, prog, RC, bound, dl, delete_latest, empty=False, break_lock=False, base=0):
     from .interp import parallel_explore
-    res, st, fns, mods, inc = parallel_explore(prog, RC.make_race(prog, bound, break_lock=break_lock, delete_latest=delete_latest, empty_archive=empty),
+    res, st, fns, mods, inc = parallel_explore(prog, RC.make_race(prog, bound, break_lock=break_lock, delete_latest=delete_latest, empty_archive=empty, base=base),
                                                deadline=dl, max_paths=400000, step_budget=900000)
     rep.functions |= fns
     rep.models |= mods
@@ -1346,7 +1348,8 @@ def _race_obligation(rep, prog, RC, bound, dl, delete_latest, empty=False, break
     name = ('a backup racing %s: after every interleaving (<= %d preemptions) every complete version refers only to blocks that still exist'
             % ('a delete of the newest version (its basis)' if delete_latest else
                'a garbage collection of an archive that holds no version yet, only left-over blocks' if empty else
-               'a garbage collection run with break_lock' if break_lock else 'a garbage collection', bound))
+               'a garbage collection run with break_lock' if break_lock else
+               'a garbage collection of an archive whose newest version is b9999' if base else 'a garbage collection', bound))
     for b in res['bad']:
         m = b.get('model') or {}
         sa, sg = m.get('size_a', 10), m.get('size_g', 10)
@@ -1360,6 +1363,8 @@ def _race_obligation(rep, prog, RC, bound, dl, delete_latest, empty=False, break
             sc['remove_first_version'] = True
         if break_lock:
             sc['break_lock'] = True
+        if base:
+            sc['first_band'] = base
         if delete_latest:
             fc = {'path': '/c', 'kind': 'File', 'content_len': m.get('size_c', 9), 'content_class': 3, 'mtime': [12, 0], 'mode': 0o644}
             sc['middle_tree'] = [sc['first_tree'][0], fc]
